@@ -397,7 +397,9 @@ Fixpoint enum_alts (g : c_cfg) (s : c_struct) (l : list c_field) : list chunk :=
   | f :: r => Hole (HStr DQ) (escape_js (variant_ser s f)) :: F " | " :: enum_alts g s r
   end.
 Definition enum_chunks (g : c_cfg) (s : c_struct) : list chunk :=
-  [F "export type "; Hole HTyName (cs_name s); F " = "] ++ enum_alts g s (listed_variants s) ++ [F "; "].
+  (* an enum without listed variants (none declared or all skipped) is the uninhabited type *)
+  [F "export type "; Hole HTyName (cs_name s); F " = "] ++
+  (match listed_variants s with [] => [F "never"] | l => enum_alts g s l end) ++ [F "; "].
 Definition struct_chunks (g : c_cfg) (s : c_struct) : list chunk :=
   if cs_enum s then enum_chunks g s else interface_chunks g s.
 Definition params_iface_chunks (g : c_cfg) (c : c_cmd) : list chunk :=
@@ -456,7 +458,10 @@ Definition index_file (has_events : bool) : cfile :=
 
 (* ------------------------------------------------------------------ zod mode: types.ts *)
 Definition zod_struct_chunks (g : c_cfg) (s : c_struct) : list chunk :=
-  if cs_enum s then
+  if cs_enum s && negb (nonempty (listed_variants s)) then
+    [F "export const "; Hole HTyName (cs_name s ++ L "Schema"); F " = z.never(); export type "; Hole HTyName (cs_name s);
+     F " = z.infer<typeof "; Hole HKey (cs_name s ++ L "Schema"); F ">; "]
+  else if cs_enum s then
     (* generate_enum_schema: format!, values joined by ", " (a trailing comma is token-different, so join exactly) *)
     [F "export const "; Hole HTyName (cs_name s ++ L "Schema"); F " = z.enum(["] ++
     (fix go (l : list c_field) : list chunk :=
